@@ -109,6 +109,7 @@ def m_C01(tier):
     cfgs += falsy_configs(tier)
     cfgs += twin_configs(tier)
     cfgs += rec_configs(tier)
+    cfgs += longuse_configs(tier)
     return cfgs
 
 
@@ -184,6 +185,7 @@ def m_C05(tier):
                             continue
                         cfgs.append(C(mod, alg, 1, purge, 'str', b, 'seeded_archive' if not b.startswith('direct') else 'empty',
                                       nargs=2, spellings=1))
+    cfgs += longuse_configs(tier)
     return cfgs
 
 
@@ -215,6 +217,31 @@ def narrow_configs(tier):
                     cfgs.append(C(mod, alg, ms, False, 'default', backend, nargs=ms + 2, spellings=0,
                                   narrow=[list(m)], depth=7 if tier == 'quick' else 8, states=2500 if tier == 'quick' else 30000))
     return cfgs
+
+
+def longuse_configs(tier, backends=None):
+    """the LRU use-queue is compacted once it holds more than 10 * maxsize recorded uses: a code path that only runs after a
+    dozen calls.  Two keys, maxsize 1 (thorough: and 2), macro events that put 10*maxsize-1 / 10*maxsize+1 uses in the queue, and
+    the property's own probes around them"""
+    cfgs = []
+    for mod in MODULES:
+        for ms in ((1,) if tier == 'quick' else (1, 2)):
+            for backend in (backends or (('none',) if tier == 'quick' else ('none', 'dict'))):
+                cfgs.append(C(mod, 'lru', ms, False, 'default', backend, nargs=2, spellings=1, longuse=True,
+                              depth=4 if tier == 'quick' else 5, states=500 if tier == 'quick' else 5000))
+    return cfgs
+
+
+LONGUSE_PROBES = {
+    'C01': [('clear',)],
+    'C02': [('dump',), ('clear',)],
+    'C05': [('clear',)],
+    'C07': [('dump',)],
+    'C15': [('info',), ('clear',)],
+    'C16': [('raise', 0, 'Boom'), ('raise', 1, 'Boom')],
+    'C18': [('lookup', 0), ('lookup', 1), ('key', 1)],
+    'C20': [('reclone',)],
+}
 
 
 def scale_configs(tier):
@@ -258,6 +285,7 @@ def m_C02(tier):
             cfgs.append(C(mod, alg, 1, False, 'default', 'dict', nargs=2, spellings=0,
                           narrow=[['arch', False], ['arch', True], ['newarch'], ['dump']], depth=7 if tier == 'quick' else 8,
                           states=3000 if tier == 'quick' else 20000))
+    cfgs += longuse_configs(tier)
     return cfgs
 
 
@@ -277,6 +305,10 @@ def m_C07(tier):
                 for purge in ((False,) if alg == 'no' else (False, True)):
                     cfgs.append(C(mod, alg, None if alg == 'no' else 1, purge, 'str', b, nargs=2, spellings=1))
     cfgs += falsy_configs(tier, BOUNDED + ('no',))
+    cfgs += longuse_configs(tier, backends=('dict',))
+    # larger maxsize with an archive attached (LFU evicts maxsize // 10 entries at a time there)
+    cfgs += [dict(c, states=150 if tier == 'quick' else 3000) for c in scale_configs('thorough')
+             if c['backend'] == 'dict' and (tier == 'thorough' or c['alg'] == 'lfu')]
     return cfgs
 
 
@@ -304,6 +336,7 @@ def m_C15(tier):
             for backend, init in (('none', 'empty'), ('dict', 'seeded_archive')):
                 cfgs.append(C('safe', alg, None if alg in ('no', 'inf') else 1, False, km, backend, init, nargs=2, spellings=1, unkeyable=True))
     cfgs += twin_configs(tier)
+    cfgs += longuse_configs(tier)
     return cfgs
 
 
@@ -332,6 +365,7 @@ def m_C16(tier):
         for backend in ('none', 'dict'):
             cfgs.append(C('safe', alg, None if alg in ('no', 'inf') else 1, False, 'raw', backend, nargs=2, spellings=1, unkeyable=True, ignore='y'))
             cfgs.append(C('safe', alg, None if alg in ('no', 'inf') else 1, False, 'raw', backend, nargs=2, spellings=1, unkeyable=True, tol=0, ignore=('y', '**')))
+    cfgs += longuse_configs(tier)
     return cfgs
 
 
@@ -360,6 +394,7 @@ def m_C18(tier):
             for alg in ALL:
                 for b, km in (('file', 'str'), ('dir', 'md5'), ('sql', 'pickle'), ('direct:dict', 'default')):
                     cfgs.append(C(mod, alg, None if alg in ('no', 'inf') else 1, False, km, b, nargs=2, spellings=1))
+    cfgs += longuse_configs(tier)
     return cfgs
 
 
@@ -387,12 +422,16 @@ def m_C20(tier):
             if tier == 'thorough' or alg in ('lru', 'no'):
                 for b in ('dirjson', 'filejson', 'dirfast', 'dir'):
                     cfgs.append(C(mod, alg, sizes[0], False, 'str', b, 'seeded_archive', nargs=2, spellings=1))
+    cfgs += longuse_configs(tier)
     return cfgs
 
 
 def ev_for(prop, cfg, tier):
     n = cfg.get('nargs', 3)
     sp = cfg.get('spellings', 2)
+    if cfg.get('longuse'):
+        ms = cfg['maxsize']
+        return call_events(n, sp) + [('callx', 0, 10 * ms - 1), ('callx', 1, 10 * ms + 1)] + LONGUSE_PROBES[prop]
     if cfg.get('scale'):
         # fill the cache in one macro event, then single calls around the bound
         return [('callseq', 0, 30), ('callseq', 0, 28)] + [('call', i) for i in (0, 1, 29, 30, 31, 32, 33)] + [('callx', 0, 3), ('clearks',)]
